@@ -10,6 +10,10 @@
                        class c is divided by the total weight; column j belongs to classes_[j]
      mean_rows         TimeSeriesForest / RISE / STSF (sum of per-tree predict_proba / n_estimators)
                        and ColumnEnsembleClassifier (np.average over members, axis 0)
+     place_row         a tree fitted on a bootstrap bag (SupervisedTimeSeriesForest) knows only the
+                       classes of its bag and returns one column per class of ITS OWN classes_; each
+                       column is placed under the forest's class of the same label, 0 elsewhere
+                       (for a tree that saw every class this is the identity)
      classes_of        classes_ = sorted distinct training labels (np.unique / class_distribution /
                        LabelEncoder), over an arbitrary label type with a total order
      argmax_first      np.argmax: index of the FIRST maximal entry
@@ -91,6 +95,13 @@ Section Labels.
     | _, _ => None
     end.
 
+  (* a tree's row (one column per class of the tree's own classes_ `tcls`) re-indexed by the
+     ensemble's classes: the tree's probability for class c, 0 if the tree never saw c *)
+  Definition prob_or0 (tcls : list L) (row : list Q) (c : L) : Q :=
+    match prob_of tcls row c with Some p => p | None => 0 end.
+  Definition place_row (classes tcls : list L) (row : list Q) : list Q :=
+    map (prob_or0 tcls row) classes.
+
   Fixpoint matches (preds ys : list L) : nat :=
     match preds, ys with
     | p :: ps, y :: yt => ((if eqb p y then 1 else 0) + matches ps yt)%nat
@@ -106,6 +117,8 @@ Arguments total_weight {L}.
 Arguments vote_row {L}.
 Arguments predict_label {L}.
 Arguments prob_of {L}.
+Arguments prob_or0 {L}.
+Arguments place_row {L}.
 Arguments matches {L}.
 Arguments accuracy {L}.
 
@@ -192,14 +205,21 @@ Fixpoint get_intervals (n_intervals : nat) (min_interval series_length : Z) (dra
   | _, _ => []
   end.
 
-(* fitted members are functions; the theorems quantify over all of them *)
-Definition tree := list Q -> list Q.          (* features -> class distribution *)
+(* fitted members are functions; the theorems quantify over all of them.  A fitted tree carries
+   its own classes_ (the labels it was fitted on) and maps features to a distribution over THOSE *)
+Definition tree (L : Type) := (list L * (list Q -> list Q))%type.
 Definition rtree := list Q -> Q.              (* features -> prediction *)
 
-Definition tsf_member_outputs (forest : list (list interval * tree)) (x : list Q) : list (list Q) :=
-  map (fun m => snd m (tsf_features (fst m) x)) forest.
-Definition tsf_proba (k : nat) (forest : list (list interval * tree)) (x : list Q) : list Q :=
-  mean_rows k (tsf_member_outputs forest x).
+Definition fmember (L : Type) := (list interval * tree L)%type.
+Definition tree_classes {L} (m : fmember L) : list L := fst (snd m).
+(* the tree's own output on the forest features of its own intervals *)
+Definition tree_row {L} (m : fmember L) (x : list Q) : list Q := snd (snd m) (tsf_features (fst m) x).
+Definition tsf_member_outputs {L} (eqb : L -> L -> bool) (classes : list L)
+  (forest : list (fmember L)) (x : list Q) : list (list Q) :=
+  map (fun m => place_row eqb classes (tree_classes m) (tree_row m x)) forest.
+Definition tsf_proba {L} (eqb : L -> L -> bool) (classes : list L) (forest : list (fmember L))
+  (x : list Q) : list Q :=
+  mean_rows (length classes) (tsf_member_outputs eqb classes forest x).
 Definition tsf_reg_predict (forest : list (list interval * rtree)) (x : list Q) : Q :=
   qmean (map (fun m => snd m (tsf_features (fst m) x)) forest).
 
